@@ -178,14 +178,22 @@ def set_objective(
                 f"class optlang.interface.Objective, not of {type(value)}"
             )
 
+        # look the variables up first: a reaction that is not part of the model must
+        # not leave the objective replaced or half updated
+        coefficients = {}
+        for reaction, coef in value.items():
+            if reaction.model is not model:
+                raise ValueError(
+                    f"Reaction '{reaction.id}' is not part of the model; it cannot "
+                    f"be used in its objective."
+                )
+            coefficients[reaction.forward_variable] = coef
+            coefficients[reaction.reverse_variable] = -coef
         if not additive:
             model.solver.objective = interface.Objective(
                 Zero, direction=model.solver.objective.direction
             )
-        for reaction, coef in value.items():
-            model.solver.objective.set_linear_coefficients(
-                {reaction.forward_variable: coef, reaction.reverse_variable: -coef}
-            )
+        model.solver.objective.set_linear_coefficients(coefficients)
 
     elif isinstance(value, (Basic, optlang.interface.Objective)):
         if isinstance(value, Basic):
